@@ -603,7 +603,9 @@ class Run:
                     # classes 2 (32-bit word wrap) and 3 (2^64 wrap) always, two of the others by the seed; S6 brings in FF..FF
                     ("hotp_full", "hotp", [rot(c) * 10 + c for c in sorted({2, 3, [1, 4, 5, 7][s % 4], [1, 4, 5, 7][(s % 4 + 1 + (s // 4) % 3) % 4]})], HOTP_FULL, 3, 4),
                     ("totp", "totp", [rot(c) * 10 + c for c in range(1, 6)], TOTP_FULL, 3, 3),
-                    ("ocra", "ocra", [cs * 10 + 1 + (s // 3) % 7, ns * 10 + 1], OCRA_CORE, 4, 4)]
+                    ("ocra", "ocra", [cs * 10 + 1 + (s // 3) % 7, ns * 10 + 1], OCRA_CORE, 4, 4),
+                    # challenges of different lengths on one state (suite QA04: 8 octets = a double challenge, then 4)
+                    ("ocra_q", "ocra", [2 * 10 + 1 + s % 3], ["S", "R", "Rq", "Vc", "Vq", "Vw"], 4, 4)]
         return [("hotp_core", "hotp", [rot(0) * 10 + 2, rot(1) * 10 + 3], HOTP_CORE, 7, 8),
                 ("hotp_full", "hotp", [d * 10 + c for d in (6, 7, 8) for c in range(1, 8)], HOTP_FULL, 4, 8),
                 ("totp", "totp", [d * 10 + c for d in (6, 7, 8) for c in range(1, 6)], TOTP_FULL, 4, 6),
